@@ -230,6 +230,8 @@ EarlyReturnApplies(es, in2, z, nested) ==
 
 \* db_polygon: mark of a sample (active = it was selected before the call)
 DbMark(active, flagSel, inside) == IF flagSel /\ ~active THEN 0 ELSE IF inside THEN 1 ELSE 0
+\* previous selection of the data bases used with flag_sel = TRUE: sample i (1-based) is active iff
+PrevActive(i) == i % 3 # 0
 
 -----------------------------------------------------------------------------
 (* Refinements (k >= 1).  All coordinates are multiplied by k; the polygon   *)
